@@ -107,6 +107,8 @@ def generate(tier, rng):
         t1 = rng.choice(gen.TYPES); t2 = rng.choice([t for t in gen.TYPES if t != t1])
         L += ['%s <- %s' % (env.pick(rng, t1), gen.expr(rng, t2, env, 1)), 'OUTPUT "unreached unless convertible"']
         cases.append(Case(gen.join(L), meta=dict(gen='random-typed', sample=False)))
+    for _ in range(25 if tier == 'quick' else 500):      # cross-feature programs (gen.rich_program): every data kind, call mode and file kind mixed
+        cases.append(Case(gen.rich_program(rng), limits=dict(steps=30000), stdin=b'typed\n', meta=dict(gen='rich', sample=False)))
     return cases
 
 def intrinsic(case, io, ia):
